@@ -157,10 +157,19 @@ func (p *Peer) pushHeadsForAllDocs(ctx context.Context, col client.Collection, p
 	txn := datastore.MustGetFromClientTxn(clientTxn)
 	ctx = datastore.CtxSetTxn(ctx, txn)
 
+	// The docIDs are produced by a goroutine that owns an iterator of this transaction. It has to
+	// be stopped and drained before the transaction is discarded, also when we return early.
+	ctx, cancel := context.WithCancel(ctx)
 	docIDChan, err := col.GetAllDocIDs(ctx)
 	if err != nil {
+		cancel()
 		return err
 	}
+	defer func() {
+		cancel()
+		for range docIDChan { //nolint:revive
+		}
+	}()
 	for docIDResult := range docIDChan {
 		if docIDResult.Err != nil {
 			return docIDResult.Err
